@@ -1,4 +1,5 @@
 """C01 — random-access AES-CTR reads equal whole-stream decryption (3DS and DSi mode)."""
+from filestack import ctr_slot
 from stackcheck import StackCheck, gen_ops
 
 CTR_POOL = [0, 1, 0xFFFFFFFFFFFFFFFF, (1 << 64) - 3, (1 << 127) + 12345, (1 << 128) - 40, 0xDEADBEEF << 56]
@@ -121,7 +122,7 @@ class C01(StackCheck):
         e = envsetup.install()
         eng = e.CryptoEngine()
         twl = case['kind'] == 'twl'
-        slot = 0x01 if twl else 0x10
+        slot = ctr_slot(case['kind'], case['key'])
         eng.set_normal_key(slot, case['key'])
         vf = VirtualFile((1 << 70) + 4096, case['seed'])
         f = eng.create_ctr_io(slot, vf, case['ctr'])
